@@ -244,7 +244,7 @@ def check_doc(ast, opts_list, res, case_base):
         if len(kinds) >= 2 and nested:
             res.nontriv((src, repr(sorted(opts.items()))))
     for k in kinds:
-        res.label('marker:' + k)
+        res.label('marker:' + k, {'src': src})
     for m in rl.markers:
         if m.get('between_macro_and_arg'):
             res.label('comment-between-macro-and-argument')
